@@ -163,12 +163,26 @@ Theorem C11_scan_stops_at_error :
   nosig sep0 -> stream_ok (valid_msg process process_info hook io) l ->
   starts_sig m -> fails process process_info io m e ->
   generate process process_info filt hook io false false (sep0 ++ assemble l ++ m ++ rest)
-  = (map fst l, Some e).
+  = (map fst l, Some (gen_exc e)).
 Proof. exact scan_stops_at_error. Qed.
 Print Assumptions C11_scan_stops_at_error.
 
+(* ... as the library's own error type when the decoder raised one *)
+Theorem C11_scan_stops_at_library_error :
+  forall (process process_info : list byte -> result msginfo)
+         (filt : msginfo -> result bool) (hook : msginfo -> result unit)
+         (io : bool) (sep0 : list byte) (l : list (list byte * list byte))
+         (m rest : list byte) (e : err),
+  nosig sep0 -> stream_ok (valid_msg process process_info hook io) l ->
+  starts_sig m -> fails process process_info io m e -> is_lib_err e = true ->
+  generate process process_info filt hook io false false (sep0 ++ assemble l ++ m ++ rest)
+  = (map fst l, Some e).
+Proof. exact scan_stops_at_library_error. Qed.
+Print Assumptions C11_scan_stops_at_library_error.
+
 (* an exception that is not a PyBufrKitError (AssertionError: D10) escapes even
-   with continue_on_error *)
+   with continue_on_error (gen_exc: PEP 479 turns a StopIteration leaving the
+   generator into RuntimeError; every other class is unchanged) *)
 Theorem C11_non_library_error_escapes :
   forall (process process_info : list byte -> result msginfo)
          (filt : msginfo -> result bool) (hook : msginfo -> result unit)
@@ -177,7 +191,7 @@ Theorem C11_non_library_error_escapes :
   nosig sep0 -> stream_ok (valid_msg process process_info hook io) l ->
   starts_sig m -> fails process process_info io m e -> is_lib_err e = false ->
   generate process process_info filt hook io coe false (sep0 ++ assemble l ++ m ++ rest)
-  = (map fst l, Some e).
+  = (map fst l, Some (gen_exc e)).
 Proof. exact non_library_error_escapes. Qed.
 Print Assumptions C11_non_library_error_escapes.
 
